@@ -204,17 +204,16 @@ Proof.
 Qed.
 
 (* ---------- property C20, retrieval, in full ---------- *)
-Theorem retrieve_exact ks ops l : ks <> [] -> forallb (op_ok ks) ops = true ->
-  Permutation (ic_retrieve (impl (state_after ks ops)) l) (spec_retrieve ks (spec (state_after ks ops)) l).
+(* for any state whose index holds exactly the stored entries (the invariants every well-formed history maintains) *)
+Lemma retrieve_exact_state s l : keys (impl s) <> [] -> Stored s -> Indexed s ->
+  Permutation (ic_retrieve (impl s) l) (spec_retrieve (keys (impl s)) (spec s) l).
 Proof.
-  intros NE OK. set (s := state_after ks ops).
-  pose proof (stored_after ks ops NE OK) as St. pose proof (indexed_after ks ops NE OK) as Ix. fold s in St, Ix.
-  assert (K : keys (impl s) = ks) by apply keys_state_after.
-  unfold ic_retrieve. rewrite K, retrieve_at_paths. unfold spec_retrieve.
-  destruct Ix as (W & Sh & N & Q). rewrite K in Sh.
+  intros NE St Ix. set (ks := keys (impl s)) in *.
+  unfold ic_retrieve. fold ks. rewrite retrieve_at_paths. unfold spec_retrieve.
+  destruct Ix as (W & Sh & N & Q). fold ks in Sh, N, Q.
   eapply Permutation_trans; [apply Permutation_map; apply (rpaths_perm ks l _ W Sh)|].
   assert (PE : Permutation (tpaths (root (impl s))) (map (entry_path ks) (spec s))).
-  { rewrite <- K. apply paths_are_entries; [now rewrite K | exact St | split; [exact W | split; [now rewrite K | split; assumption]]]. }
+  { apply paths_are_entries; [exact NE | exact St | split; [exact W | split; [exact Sh | split; assumption]]]. }
   eapply Permutation_trans; [apply Permutation_map; apply Permutation_filter'; exact PE|].
   rewrite filter_map_comm, map_map. unfold entry_path. cbn [fst snd].
   assert (E : forall st, map (fun x : entry => (extend ks l l (pattern ks (fst x)), snd x))
@@ -223,4 +222,11 @@ Proof.
   { intros st. induction st as [|e st IH]; [reflexivity|]. cbn [filter]. rewrite pcompat_strict_pattern.
     destruct (compatible ks (fst e) l); [|exact IH]. cbn [map]. rewrite IH. f_equal. f_equal. unfold merge. apply extend_pattern. }
   rewrite E. apply Permutation_refl.
+Qed.
+
+Theorem retrieve_exact ks ops l : ks <> [] -> forallb (op_ok ks) ops = true ->
+  Permutation (ic_retrieve (impl (state_after ks ops)) l) (spec_retrieve ks (spec (state_after ks ops)) l).
+Proof.
+  intros NE OK. pose proof (retrieve_exact_state (state_after ks ops) l) as H. rewrite keys_state_after in H.
+  apply H; [exact NE | now apply stored_after | now apply indexed_after].
 Qed.
